@@ -256,3 +256,23 @@ package objectcore
 //@   defines intFilterPassed(0) == (old(intFilterPassed(0)) || result)
 //@ func MetaDataKVHandler$1
 //@   loop 4 invariant [numeric_filter_passes_only_a_value_that_parsed_as_integer] intFilterPassed(0) ==> dbValueParsed(0)
+
+// ---- C24 (EC parts): a part of an erasure-coded object is not signed and its signature is
+// not what authenticates it (the parent's is); it therefore carries no session token of either
+// version - a token on a part would be stored without ever being verified.
+//@ ghost pred partCarriesSessionV1() bool
+//@ ghost pred partCarriesSessionV2() bool
+//@ callrule c24_part_session_v1 in checkECPart
+//@   property C24
+//@   callee (object.Object).SessionToken, (*object.Object).SessionToken
+//@   pureeffect
+//@   defines (result != nil) == partCarriesSessionV1()
+//@ callrule c24_part_session_v2 in checkECPart
+//@   property C24
+//@   optional
+//@   callee (object.Object).SessionTokenV2, (*object.Object).SessionTokenV2
+//@   pureeffect
+//@   defines (result != nil) == partCarriesSessionV2()
+//@ func checkECPart
+//@   property C24
+//@   ensures [accepted_part_carries_no_session_token_of_either_version] err == nil ==> !partCarriesSessionV1() && !partCarriesSessionV2()
